@@ -2,6 +2,7 @@ SPECIFICATION Spec
 CONSTANTS
   MaxSteps = 5
   Inputs = {1, 2}
+  ZeroCopyAtEnd = FALSE
   Emit = FALSE
 INVARIANTS NeverPoolOrDecBuf AliasOnlyOptIn StableWithoutOverwrite MayChangeMonotone
 CHECK_DEADLOCK FALSE
